@@ -184,6 +184,23 @@ def check_protection(ck, rule, tm, rootname, variant, ev, dst, nbytes, role):
               "" if ok_hi else " — counter-example class: the patch straddles a page boundary (page offset o with o + len > page size), "
               "the second page keeps its old protection and the copy faults"),
           where(prot), witness={"start": fmt(start.e, 6), "size": fmt(size.e, 6), "dst": fmt(dst.e, 6), "len": fmt(nbytes.e)})
+    if prot.name == "mach2::vm::mach_vm_protect":
+        # macOS writes into a private alias of the page (first mach_vm_remap + VM_PROT_COPY); the function only changes when that alias
+        # is mapped back over it: a later mach_vm_remap whose source is the alias and whose flags say OVERWRITE (0x4000), not ANYWHERE (1)
+        back = [e for e in variant.trace[ev.idx + 1:] if e.kind == "ffi" and e.name == "mach2::vm::mach_vm_remap" and len(e.args) > 6
+                and isinstance(e.args[6], Int) and same_expr(e.args[6].e, dst.e)]
+        okb, whyb = False, "no later mach_vm_remap takes the written alias as its source"
+        for e in back:
+            fl = e.args[4]
+            if isinstance(fl, Int) and fl.is_const():
+                f_ = fl.cval()
+                okb = bool(f_ & 0x4000) and not (f_ & 1)
+                whyb = "mach_vm_remap(.., flags=%#x, .., src=alias): %s" % (f_, "VM_FLAGS_OVERWRITE at the function's address" if okb else
+                                                                         "NOT an overwrite of the function's page (ANYWHERE maps the patched copy somewhere else)")
+            else:
+                whyb = "mach_vm_remap flags are not constant"
+        ck.ob(rule, "macos/%s/alias-mapped-back-over-the-function" % role, tm.target, okb,
+              "%s write of %s byte(s) into the alias %s in %s: %s" % (role, fmt(nbytes.e), fmt(dst.e, 3), short(rootname), whyb), where(back[-1]) if back else where(ev))
     # protection value must allow writing (and executing on non-macOS)
     if prot.name != "mach2::vm::mach_vm_protect":
         pv = prot.args[2]
